@@ -17,6 +17,6 @@ func init() {
 			Assumptions: append([]string{
 				"the builder's streaming protocol: StartStreaming/FinishStreaming paired, Stream/PrepareStream only inside a stream, at most one outstanding PrepareStream, one batch size per run, restorable items are items received from Stream in this stream (chain/builder.go); a second StartStreaming without FinishStreaming blocks on streamLock",
 			}, assume...),
-			Outside: []string{"more than `setup` initial adds + maxOps operations (followed by FinishStreaming and popping everything)", "more than `items` distinct items, two sponsors", "stream batch sizes above 2", "restorable lists in another order than item order", "Top (gossip iteration)"}},
+			Outside: []string{"histories other than: `setup` initial adds, StartStreaming, exactly maxOps operations, FinishStreaming (if still streaming), popping everything", "quick tier: Remove and PopNext by other callers during a stream (thorough tier has them; outside a stream: harness history)", "(item limit, sponsor limit, batch size) combinations other than the listed ones", "more than `items` distinct items, two sponsors", "restorable lists in another order than item order", "Top (gossip iteration)"}},
 	}})
 }
